@@ -362,7 +362,7 @@ def main():
     cx = [i for i, cst in enumerate(CONSTRUCTS) if cst[0] in (('bracket', 'paren', 'star-emph', 'critic-add') if not thorough else ('bracket', 'image', 'paren', 'angle', 'star-emph', 'strong', 'dquote', 'critic-add', 'critic-sub', 'math-paren'))]
     chk.run_jobs(work_context, [(chk.seed, i, 100000 if not thorough else 400000) for i in cx])
     # (constructs whose every level creates a note are left out: 1005 x 1100 of them is a question about note *counts* -- C02's repeated blocks -- not about depth limits)
-    lh = [i for i, cst in enumerate(CONSTRUCTS) if cst[0] in (('blockquote', 'bracket', 'star-emph', 'critic-add') if not thorough else [x[0] for x in CONSTRUCTS if x[1] is not None and x[0] not in ('footnote', 'citation')])]
+    lh = [i for i, cst in enumerate(CONSTRUCTS) if cst[0] in (('blockquote', 'bracket', 'star-emph', 'critic-add') if not thorough else [x[0] for x in CONSTRUCTS if x[1] is not None and x[0] not in ('footnote', 'citation') and not any(w in x[0] for w in ('note', 'glossary', 'citation'))])]
     chk.run_jobs(work_limit_hits, [(chk.seed, i, 1005, 200000 if not thorough else 1000000) for i in lh])
     # cost
     ks = [1, 2, 4, 8, 16, 32, 64] + ([128, 256] if thorough else [])
